@@ -16,3 +16,8 @@ globals()["map_conc_n3"]._vf.tiers = ("thorough",)
 scn.register(globals(), {"C05", "C02"}, ["map_conc"], {"map_conc": [("_n3_mc2", "n == 3 and mc == 2")]})
 globals()["map_conc_n3_mc2"]._vf.tiers = ("quick",)
 globals()["map_conc_n3_mc2"]._vf.bounds = {"quick": {"N": 3}}
+
+import s2_more as more
+more.register(globals(), {"C05", "C02"}, ["par3_mixed", "map_iter_catch", "map_in_par", "par_in_map"],
+              {"par3_mixed": [("_none", "not fa and not fb")], "map_in_par": [("_k%d_ok" % k, "kind == %d and not fo and fi == -1" % k) for k in range(3)],
+               "par_in_map": [("_ok", "failing == -1")]})
